@@ -1,0 +1,198 @@
+//go:build verif
+
+// Contracts for fsm.go (properties C01 C02 C03 C04 C05 C06 C08 C09 C10 C11 C14).
+package corebgp
+
+// ---- writes: every Write is one complete message (C04); what was written (C08 C09) ----
+
+//@ func fsm.sendNotification returns (err)
+//@   requires [conn] f.conn != nil && n != nil
+//@   requires [fits] len(n.Data) <= 4075
+//@   at call Write#0 assert [is_the_notification] isNotifMsg(arg1, n.Code, n.Subcode, n.Data)
+//@   at call Write#0 after set lastCode(f.conn) = n.Code
+//@   at call Write#0 after set lastSub(f.conn) = n.Subcode
+//@   at call Write#0 after set lastDataLen(f.conn) = len(n.Data)
+//@   at call Write#0 after set lastData0(f.conn) = (len(n.Data) >= 1 ? n.Data[0] : 0)
+//@   modifies nwrites(f.conn), lastKind(f.conn), lastCode(f.conn), lastSub(f.conn), lastDataLen(f.conn), lastData0(f.conn)
+//@   ensures [one_write] nwrites(f.conn) == old(nwrites(f.conn)) + 1
+//@   ensures [what] lastNotif(f.conn, n.Code, n.Subcode) && lastDataLen(f.conn) == len(n.Data) && (len(n.Data) >= 1 ==> lastData0(f.conn) == n.Data[0])
+
+//@ func fsm.sendKeepAlive returns (err)
+//@   requires [conn] f.conn != nil
+//@   modifies nwrites(f.conn), lastKind(f.conn)
+//@   ensures [one_write] nwrites(f.conn) == old(nwrites(f.conn)) + 1 && lastKind(f.conn) == 4
+//@   ensures [plain_error] err != nil ==> !hasType(err, *notificationError)
+
+// The NOTIFICATION inside a reader/validation error is sent iff it is outbound.
+//@ func fsm.handleNotificationInErr returns (r)
+//@   requires [conn] f.conn != nil
+//@   requires [well_formed_error] hasType(err, *notificationError) ==> firstOf(err, *notificationError) != nil && firstOf(err, *notificationError).notification != nil && len(firstOf(err, *notificationError).notification.Data) <= 4075
+//@   let ne = firstOf(err, *notificationError)
+//@   modifies nwrites(f.conn), lastKind(f.conn), lastCode(f.conn), lastSub(f.conn), lastDataLen(f.conn), lastData0(f.conn)
+//@   ensures [sent_iff_outbound] r == (hasType(err, *notificationError) && ne.out)
+//@   ensures [sent] r ==> nwrites(f.conn) == old(nwrites(f.conn)) + 1 && lastNotif(f.conn, ne.notification.Code, ne.notification.Subcode) && lastDataLen(f.conn) == len(ne.notification.Data) && (len(ne.notification.Data) >= 1 ==> lastData0(f.conn) == ne.notification.Data[0])
+//@   ensures [silent_otherwise] !r ==> nwrites(f.conn) == old(nwrites(f.conn))
+
+// ---- timers (C06) ----
+//@ func fsm.drainAndResetHoldTimer
+//@   requires f.holdTimer != nil
+//@   modifies timerOn(f.holdTimer), timerDur(f.holdTimer), timerMayHold(f.holdTimer)
+//@   ensures [rearmed] timerOn(f.holdTimer) && timerDur(f.holdTimer) == f.holdTime && !timerMayHold(f.holdTimer)
+
+// ---- reader life cycle (C10) ----
+//@ func fsm.startReading
+//@   requires !readerRunning(f)
+//@   at call read#0 set readerRunning(f) = true
+//@   modifies f.closeReaderCh, f.closeReaderOnce, f.readerDoneCh, f.readerErrCh, f.readerMsgCh, readerRunning(f), onceDone(f.closeReaderOnce)
+//@   ensures [started] readerRunning(f) && f.readerMsgCh != nil && f.readerErrCh != nil && f.readerDoneCh != nil && f.closeReaderCh != nil && !chanClosed(f.closeReaderCh) && !onceDone(f.closeReaderOnce) && fresh(f.closeReaderCh) && fresh(f.readerDoneCh)
+
+// conn closed if there is one, reader joined, f.conn cleared
+//@ func fsm.cleanupConnAndReader
+//@   requires [reader_channels] readerRunning(f) ==> f.closeReaderCh != nil && f.readerDoneCh != nil
+//@   requires [once] f.closeReaderCh != nil ==> f.readerDoneCh != nil && (chanClosed(f.closeReaderCh) == onceDone(f.closeReaderOnce))
+//@   modifies f.conn, connClosed(f.conn), readerRunning(f), chanClosed(f.closeReaderCh), onceDone(f.closeReaderOnce)
+//@   ensures [conn_closed] old(f.conn) != nil ==> connClosed(old(f.conn))
+//@   ensures [conn_cleared] f.conn == nil
+//@   ensures [reader_joined] !readerRunning(f)
+//@   ensures [once] f.closeReaderCh != nil ==> (chanClosed(f.closeReaderCh) == onceDone(f.closeReaderOnce))
+
+// ---- plugin callbacks (assumptions about user code: DESIGN section 7) ----
+//@ callback Plugin.GetCapabilities (pl, cfg) returns (caps)
+//@   ensures true
+//@ callback Plugin.OnOpenMessage (pl, cfg, rid, caps) returns (n)
+//@   ensures n != nil ==> len(n.Data) <= 4075
+//@ callback Plugin.OnEstablished (pl, cfg, w) returns (h)
+//@   ensures true
+//@ callback Plugin.OnClose (pl, cfg)
+//@   ensures true
+//@ callback handler (cfg, m) returns (n)
+//@   ensures n != nil ==> len(n.Data) <= 4075
+
+// ---- OPEN is sent once per connection, after GetCapabilities (C01, C14) ----
+//@ func fsm.sendOpenAndSetHoldTimer returns (s)
+//@   requires [self] fsmSelf(f) && f.conn != nil && !connClosed(f.conn) && !readerRunning(f)
+//@   ghostvar ncaps int = 0
+//@   ghostvar nwr int = 0
+//@   at call GetCapabilities#0 assert [before_open] nwr == 0 && ncaps == 0
+//@   at call GetCapabilities#0 set ncaps = ncaps + 1
+//@   at call newOpenMessage#0 assert [from_configuration] arg0 == f.peer.config.LocalAS && arg1 == f.peer.options.holdTime && arg2 == f.peer.id
+//@   at call Write#0 assert [one_open_after_getcapabilities] ncaps == 1 && nwr == 0 && arg1[18] == 1
+//@   at call Write#0 set nwr = nwr + 1
+//@   modifies f.holdTimer, f.closeReaderCh, f.closeReaderOnce, f.readerDoneCh, f.readerErrCh, f.readerMsgCh, readerRunning(f), onceDone(f.closeReaderOnce), nwrites(f.conn), lastKind(f.conn), connClosed(f.conn)
+//@   ensures [getcapabilities_once] ncaps == 1
+//@   ensures [result] s == 4 || s == 1
+//@   ensures [open_sent] s == 4 ==> nwr == 1 && nwrites(f.conn) == old(nwrites(f.conn)) + 1 && lastKind(f.conn) == 1 && connUp(f) && f.holdTimer != nil && timerOn(f.holdTimer) && timerDur(f.holdTimer) == 240000000000 && !timerMayHold(f.holdTimer) && !onceDone(f.closeReaderOnce)
+//@   ensures [failed_closes] s == 1 ==> connClosed(f.conn) && !readerRunning(f) && nwr <= 1
+
+//@ callback cancel ()
+//@   ensures true
+//@ callback cancelDialFn ()
+//@   ensures true
+
+//@ func fsm.dialPeer
+//@   requires !dialPending(f)
+//@   at call dialPeer$1#0 set dialPending(f) = true
+//@   modifies f.dialResultCh, f.cancelDialFn, dialPending(f)
+//@   ensures [pending] dialPending(f) && f.dialResultCh != nil && f.cancelDialFn != nil && fresh(f.dialResultCh)
+
+// ---- Idle / Connect / Active: retry pacing (C11) ----
+//@ chaninv fsm.dialResultCh(r) = r != nil && (r.err == nil ==> r.conn != nil && !connClosed(r.conn)) && (r.err != nil ==> r.conn == nil)
+
+//@ func fsm.idle returns (s)
+//@   requires [self] fsmSelf(f) && !dialPending(f) && !readerRunning(f)
+//@   ghostvar timerArm bool = false
+//@   at select#0 case 1 set timerArm = true
+//@   modifies f.connectRetryTimer, f.dialResultCh, f.cancelDialFn, dialPending(f), timerOn(f.idleHoldTimer), timerDur(f.idleHoldTimer), timerMayHold(f.idleHoldTimer)
+//@   ensures [result] s == 0 || s == 2
+//@   ensures [connect_only_after_idle_hold] s == 2 ==> timerArm && dialPending(f) && f.dialResultCh != nil && f.cancelDialFn != nil && f.connectRetryTimer != nil && timerOn(f.connectRetryTimer) && timerDur(f.connectRetryTimer) == f.peer.options.connectRetryTime && timerOn(f.idleHoldTimer) && timerDur(f.idleHoldTimer) == f.peer.options.idleHoldTime
+//@   ensures [disabled_starts_nothing] s == 0 ==> !dialPending(f) && f.connectRetryTimer == old(f.connectRetryTimer)
+
+// A dial result that is not going to be used is consumed and, if it carries a
+// connection, that connection is closed (no leak).
+//@ func fsm.dropDialResult
+//@   requires f.dialResultCh != nil
+//@   ghostvar got int = 0
+//@   at recv dialResultCh#0 after set got = (result != nil ? result.conn.val : 0)
+//@   modifies dialPending(f), connClosed
+//@   ensures [consumed] !dialPending(f)
+//@   ensures [closed_if_connected] got != 0 ==> connClosed(got)
+
+// Connect: a failed dial leads to Idle (never straight back to Connect/Active: no
+// busy redial); the retry timer abandons the pending attempt and starts a new
+// one; every dial result is consumed and a connection that is not used is closed.
+//@ func fsm.connect returns (s)
+//@   requires [self] fsmSelf(f) && dialPending(f) && f.dialResultCh != nil && f.cancelDialFn != nil && f.connectRetryTimer != nil && !readerRunning(f)
+//@   ghostvar redials int = 0
+//@   at call dialPeer#0 set redials = redials + 1
+//@   at call dialPeer#0 assert [redial_only_after_retry_timer_and_failed_dial] !dialPending(f) && timerOn(f.connectRetryTimer) && timerDur(f.connectRetryTimer) == f.peer.options.connectRetryTime
+//@   loop#0 invariant [pending] fsmSelf(f) && dialPending(f) && f.dialResultCh != nil && f.cancelDialFn != nil && f.connectRetryTimer != nil && !readerRunning(f)
+//@   modifies f.conn, f.holdTimer, f.connectRetryTimer, f.dialResultCh, f.cancelDialFn, f.closeReaderCh, f.closeReaderOnce, f.readerDoneCh, f.readerErrCh, f.readerMsgCh, dialPending(f), readerRunning(f), onceDone(f.closeReaderOnce), timerOn, timerDur, timerMayHold, nwrites, lastKind, connClosed
+//@   ensures [result] s == 0 || s == 1 || s == 4
+//@   ensures [dial_consumed] !dialPending(f)
+//@   ensures [open_sent] s == 4 ==> connUp(f) && f.holdTimer != nil && timerOn(f.holdTimer) && timerDur(f.holdTimer) == 240000000000 && lastKind(f.conn) == 1
+//@   ensures [no_reader_otherwise] s != 4 ==> !readerRunning(f)
+
+// Active: an inbound FSM sends its OPEN at once; an outbound FSM waits for the
+// connect-retry timer, re-arms it and dials (passive peers have no outbound FSM).
+//@ func fsm.active returns (s)
+//@   requires [self] fsmSelf(f) && !dialPending(f) && !readerRunning(f) && (f.conn == nil ==> f.connectRetryTimer != nil) && (f.conn != nil ==> !connClosed(f.conn))
+//@   ghostvar timerArm bool = false
+//@   at select#0 case 0 set timerArm = true
+//@   modifies f.conn, f.holdTimer, f.connectRetryTimer, f.dialResultCh, f.cancelDialFn, f.closeReaderCh, f.closeReaderOnce, f.readerDoneCh, f.readerErrCh, f.readerMsgCh, dialPending(f), readerRunning(f), onceDone(f.closeReaderOnce), timerOn, timerDur, timerMayHold, nwrites, lastKind, connClosed
+//@   ensures [result] s == 0 || s == 1 || s == 2 || s == 4
+//@   ensures [inbound_sends_open] old(f.conn) != nil ==> s == 4 || s == 1
+//@   ensures [dial_only_after_retry_timer] s == 2 ==> old(f.conn) == nil && timerArm && dialPending(f) && f.dialResultCh != nil && f.cancelDialFn != nil && f.connectRetryTimer != nil && timerOn(f.connectRetryTimer) && timerDur(f.connectRetryTimer) == f.peer.options.connectRetryTime
+//@   ensures [open_sent] s == 4 ==> connUp(f) && f.holdTimer != nil && timerOn(f.holdTimer) && lastKind(f.conn) == 1
+//@   ensures [no_dial_otherwise] s != 2 ==> !dialPending(f)
+
+// ---- OpenSent (C02 C06 C08 C09 C10 C12) ----
+// arm: 0 close request, 1 hold timer, 2 reader error, 3 message.
+//@ func fsm.openSent$1 returns (to, err)
+//@   requires [self] fsmSelf(f) && connUp(f) && f.holdTimer != nil
+//@   ghostvar arm int = -1
+//@   ghostvar valErr bool = false
+//@   ghostvar validated bool = false
+//@   ghostvar rhold int = 0
+//@   ghostvar rid int = 0
+//@   ghostvar nOnOpen int = 0
+//@   ghostvar plugN int = 0
+//@   ghostvar gcA int = 0
+//@   ghostvar gcO int = 0
+//@   ghostvar gcL int = 0
+//@   at select#0 case 0 set arm = 0
+//@   at select#0 case 1 set arm = 1
+//@   at select#0 case 2 set arm = 2
+//@   at select#0 case 3 set arm = 3
+//@   at call validate#0 assert [against_configuration] arg1 == f.peer.id && arg2 == f.peer.config.LocalAS && arg3 == f.peer.config.RemoteAS
+//@   at call validate#0 set rhold = arg0.holdTime
+//@   at call validate#0 set rid = arg0.bgpID
+//@   at call validate#0 after set valErr = result != nil
+//@   at call validate#0 after set validated = true
+//@   at call getCapabilities#0 after set gcA = result.arr
+//@   at call getCapabilities#0 after set gcO = result.off
+//@   at call getCapabilities#0 after set gcL = len(result)
+//@   at call OnOpenMessage#0 assert [only_after_valid_open] validated && !valErr && nOnOpen == 0 && nwrites(f.conn) == old(nwrites(f.conn))
+//@   at call OnOpenMessage#0 assert [identifier_and_capabilities] arg2 == addr4(rid / 16777216, (rid / 65536) % 256, (rid / 256) % 256, rid % 256) && arg3.arr == gcA && arg3.off == gcO && len(arg3) == gcL
+//@   at call OnOpenMessage#0 set nOnOpen = nOnOpen + 1
+//@   at call OnOpenMessage#0 after set plugN = result
+//@   modifies f.remoteID, f.holdTime, f.keepAliveInterval, f.keepAliveTimer, f.connectRetryTimer, nwrites(f.conn), lastKind(f.conn), lastCode(f.conn), lastSub(f.conn), lastDataLen(f.conn), lastData0(f.conn), timerOn, timerDur, timerMayHold
+//@   ensures [result_states] to == 0 || to == 1 || to == 3 || to == 5
+//@   ensures [error_unless_progress] (to == 5) == (err == nil)
+//@   ensures [at_most_one_write] nwrites(f.conn) == old(nwrites(f.conn)) || nwrites(f.conn) == old(nwrites(f.conn)) + 1
+//@   ensures [close_sends_cease] arm == 0 ==> to == 0 && nwrites(f.conn) == old(nwrites(f.conn)) + 1 && lastNotif(f.conn, 6, 0) && hasType(err, *notificationError)
+//@   ensures [hold_timer_expiry] arm == 1 ==> to == 1 && nwrites(f.conn) == old(nwrites(f.conn)) + 1 && lastNotif(f.conn, 4, 0) && hasType(err, *notificationError) && firstOf(err, *notificationError).notification.Code == 4
+//@   ensures [reader_notification_error] arm == 2 && hasType(err, *notificationError) ==> to == 1 && nwrites(f.conn) == old(nwrites(f.conn)) + 1 && lastNotif(f.conn, firstOf(err, *notificationError).notification.Code, firstOf(err, *notificationError).notification.Subcode)
+//@   ensures [tcp_failure_goes_active] arm == 2 && !hasType(err, *notificationError) ==> to == 3 && nwrites(f.conn) == old(nwrites(f.conn)) && f.connectRetryTimer != nil && timerOn(f.connectRetryTimer) && timerDur(f.connectRetryTimer) == f.peer.options.connectRetryTime
+//@   ensures [reader_error_kept] arm == 2 ==> err != nil && errWellFormed(err)
+//@   ensures [open_invalid] arm == 3 && validated && valErr ==> to == 1 && nOnOpen == 0 && nwrites(f.conn) == old(nwrites(f.conn)) + 1 && hasType(err, *notificationError) && lastNotif(f.conn, 2, firstOf(err, *notificationError).notification.Subcode) && firstOf(err, *notificationError).notification.Code == 2
+//@   ensures [open_valid_calls_plugin_once] arm == 3 && validated && !valErr ==> nOnOpen == 1
+//@   ensures [plugin_refusal_sent_verbatim] arm == 3 && validated && !valErr && plugN != 0 ==> to == 1 && nwrites(f.conn) == old(nwrites(f.conn)) + 1 && lastNotif(f.conn, asPtr(plugN, *Notification).Code, asPtr(plugN, *Notification).Subcode) && lastDataLen(f.conn) == len(asPtr(plugN, *Notification).Data) && errCarries(err, asPtr(plugN, *Notification), true)
+//@   ensures [open_accepted] arm == 3 && validated && !valErr && plugN == 0 && to == 5 ==> nwrites(f.conn) == old(nwrites(f.conn)) + 1 && lastKind(f.conn) == 4 && f.remoteID == rid
+//@   ensures [accepted_or_keepalive_failed] arm == 3 && validated && !valErr && plugN == 0 ==> to == 5 || to == 1
+//@   ensures [hold_time_negotiated] to == 5 ==> f.holdTime == min(f.peer.options.holdTime, rhold * 1000000000) && (rhold == 0 || rhold >= 3)
+//@   ensures [timers_for_nonzero_hold_time] to == 5 && f.holdTime != 0 ==> f.holdTime >= 3000000000 && f.keepAliveInterval == f.holdTime / 3 && f.keepAliveTimer != nil && timerOn(f.keepAliveTimer) && timerDur(f.keepAliveTimer) == f.holdTime / 3 && timerOn(f.holdTimer) && timerDur(f.holdTimer) == f.holdTime && !timerMayHold(f.holdTimer)
+//@   ensures [timers_for_zero_hold_time] to == 5 && f.holdTime == 0 ==> f.keepAliveTimer != nil && !timerOn(f.keepAliveTimer) && !timerOn(f.holdTimer) && !timerMayHold(f.holdTimer)
+//@   ensures [received_notification_is_silent] arm == 3 && !validated && hasType(err, *notificationError) && !firstOf(err, *notificationError).out ==> to == 1 && nwrites(f.conn) == old(nwrites(f.conn))
+//@   ensures [unexpected_message] arm == 3 && !validated && hasType(err, *notificationError) && firstOf(err, *notificationError).out ==> to == 1 && nwrites(f.conn) == old(nwrites(f.conn)) + 1 && lastNotif(f.conn, 5, 1) && lastDataLen(f.conn) == 1 && (lastData0(f.conn) == 2 || lastData0(f.conn) == 4)
+//@   ensures [message_arm_always_reports] arm == 3 && !validated ==> hasType(err, *notificationError)
+//@   ensures [error_well_formed] err != nil ==> errWellFormed(err)
